@@ -301,5 +301,77 @@ func c15eGen(r *rng, tier string, emit func(string)) {
 		for _, v := range []string{"honest", "omit-ccs", "fin-first", "skx0", "skx", "dup-shd", "shd-body", "cert-twice", "hreq-first", "unk", "status"} {
 			emit(fmt.Sprintf("evilsrv %s %s %x", v, opt, r.u64()))
 		}
+		for _, v := range []string{"honest", "omit-ccs", "fin-first", "skx-twice", "status", "nst-early", "hreq", "unk", "dup-shd"} {
+			emit(fmt.Sprintf("evilgm %s %s %x", v, opt, r.u64()))
+		}
 	}
+}
+
+// evilgm <variant> <client options> <seed> : the same idea for GMSSL, with the scripted GM server of
+// gmtls/export_verif_c08.go (a copy of the library's GM server handshake with the listed deviations; it holds the
+// genuine signing and encryption keys, so the transcript stays consistent). variant: honest | omit-ccs | fin-first |
+// skx-twice (a second, empty ServerKeyExchange before ServerHelloDone) | status (CertificateStatus before
+// ServerHelloDone) | hreq (HelloRequest after ServerHello) | unk (unknown type after ServerHello) | dup-shd |
+// nst-early (NewSessionTicket before ServerHelloDone)
+func init() { evals["evilgm"] = evalEvilGM }
+
+func evalEvilGM(args []string) string {
+	if len(args) != 3 {
+		return "bad-op"
+	}
+	variant, opts := args[0], args[1]
+	m, _, _ := pkis()
+	ccfg, scfg := gmClientCfg(m), gmServerCfg(m)
+	scfg.SessionTicketsDisabled = true
+	if opts != "-" {
+		for _, o := range strings.Split(opts, "+") {
+			switch o {
+			case "reneg":
+				ccfg.Renegotiation = gmtls.RenegotiateFreelyAsClient
+			case "once":
+				ccfg.Renegotiation = gmtls.RenegotiateOnceAsClient
+			default:
+				return "bad-op"
+			}
+		}
+	}
+	mk := func(t byte, body []byte) []byte {
+		return append([]byte{t, byte(len(body) >> 16), byte(len(body) >> 8), byte(len(body))}, body...)
+	}
+	k := &gmtls.VerifEvilServer{}
+	switch variant {
+	case "honest":
+	case "omit-ccs":
+		k.OmitChangeCipherSpec = true
+	case "fin-first":
+		k.FinishedBeforeCCS = true
+	case "skx-twice":
+		k.ExtraBeforeDone = [][]byte{mk(12, nil)}
+	case "status":
+		k.ExtraBeforeDone = [][]byte{mk(22, []byte{1, 0, 0, 1, 0})}
+	case "nst-early":
+		k.ExtraBeforeDone = [][]byte{mk(4, []byte{0, 0, 0, 0, 0, 0})}
+	case "hreq":
+		k.ExtraAfterHello = [][]byte{mk(0, nil)}
+	case "unk":
+		k.ExtraAfterHello = [][]byte{mk(99, nil)}
+	case "dup-shd":
+		k.DoneTwice = true
+	default:
+		return "bad-op"
+	}
+	res, _, _ := c08Run(ccfg, scfg, nil, c08Evil{server: k})
+	if res.c.panicked != "" {
+		return "ORACLE-FAIL:panic:" + strings.ReplaceAll(res.c.panicked, " ", "_")
+	}
+	if res.c.hung {
+		return "ORACLE-FAIL:client-does-not-return"
+	}
+	if res.c.done {
+		if variant != "honest" {
+			return "ORACLE-FAIL:completed-on-misbehaviour"
+		}
+		return "done"
+	}
+	return "error"
 }
